@@ -442,11 +442,40 @@ class Index:
 
     # ---- constants
 
-    def const_eval(self, m: Module, e: ast.expr, _depth=0):
-        """Evaluate a module-level constant expression built from literals and set algebra."""
+    def const_eval(self, m: Module, e: ast.expr, _depth=0, env=None):
+        """Evaluate a module-level constant expression built from literals, set algebra, comprehensions
+        over constant iterables and a few pure builtins (constant propagation, no code is run)."""
         if _depth > 12:
             raise AnalysisError("constant evaluation too deep")
-        ev = lambda x: self.const_eval(m, x, _depth + 1)  # noqa: E731
+        ev = lambda x: self.const_eval(m, x, _depth + 1, env)  # noqa: E731
+        if env and isinstance(e, ast.Name) and e.id in env:
+            return env[e.id]
+        if isinstance(e, (ast.DictComp, ast.SetComp, ast.ListComp, ast.GeneratorExp)):
+            if len(e.generators) != 1 or e.generators[0].is_async:
+                raise AnalysisError(f"cannot evaluate comprehension {ast.unparse(e)[:60]} in {m.name}")
+            gen = e.generators[0]
+            out_items = []
+            for item in ev(gen.iter):
+                env2 = dict(env or {})
+                tg = gen.target
+                if isinstance(tg, ast.Name):
+                    env2[tg.id] = item
+                elif isinstance(tg, ast.Tuple) and all(isinstance(x, ast.Name) for x in tg.elts) and len(tg.elts) == len(item):
+                    env2.update({x.id: v for x, v in zip(tg.elts, item)})
+                else:
+                    raise AnalysisError(f"cannot bind comprehension target {ast.unparse(tg)} in {m.name}")
+                ev2 = lambda x: self.const_eval(m, x, _depth + 1, env2)  # noqa: E731
+                if all(ev2(c) for c in gen.ifs):
+                    out_items.append((ev2(e.key), ev2(e.value)) if isinstance(e, ast.DictComp) else ev2(e.elt))
+            if isinstance(e, ast.DictComp):
+                return dict(out_items)
+            return set(out_items) if isinstance(e, ast.SetComp) else list(out_items)
+        if isinstance(e, ast.Compare) and len(e.ops) == 1:
+            l, r = ev(e.left), ev(e.comparators[0])
+            o = e.ops[0]
+            table = {ast.Eq: lambda: l == r, ast.NotEq: lambda: l != r, ast.In: lambda: l in r, ast.NotIn: lambda: l not in r}
+            if type(o) in table:
+                return table[type(o)]()
         if isinstance(e, ast.Constant):
             return e.value
         if isinstance(e, (ast.Tuple, ast.List)):
@@ -509,6 +538,17 @@ class Index:
                     return {"set": set(), "frozenset": frozenset(), "tuple": (), "list": [], "sorted": [], "dict": {}}[fn.id]
                 v = ev(e.args[0])
                 return {"set": set, "frozenset": frozenset, "tuple": tuple, "list": list, "sorted": sorted, "dict": dict}[fn.id](v)
+            if isinstance(fn, ast.Name) and fn.id in ("zip", "reversed", "enumerate") and e.args and not e.keywords:
+                vals = [list(ev(a)) for a in e.args]
+                if fn.id == "zip":
+                    return list(zip(*vals))
+                if fn.id == "reversed":
+                    return list(reversed(vals[0]))
+                return list(enumerate(vals[0]))
+            if isinstance(fn, ast.Attribute) and fn.attr in ("items", "keys", "values") and not e.args:
+                v = ev(fn.value)
+                if isinstance(v, dict):
+                    return list(getattr(v, fn.attr)())
             if isinstance(fn, ast.Attribute) and fn.attr == "copy" and not e.args:
                 v = ev(fn.value)
                 return v.copy() if hasattr(v, "copy") else v
